@@ -81,7 +81,7 @@ type Scenario struct {
 	// RaceFilter, when set, selects the race reports (by signature) that are
 	// violations of THIS property; the others belong to another property's check.
 	RaceFilter func(sig string) bool
-	Run  func(rc *RunCtx)
+	Run        func(rc *RunCtx)
 	// EnumDraw names a draw of the generation stream (Tape.Name) that the worker
 	// enumerates exhaustively for a sample of runs: the run is repeated with the
 	// same tape and that draw set to 1..N, N = number of scheduler steps of the
@@ -114,8 +114,8 @@ type RunResult struct {
 	Steps      int            `json:"steps"`
 	Tasks      int            `json:"tasks"`
 	SimTimeNs  int64          `json:"sim_time_ns"`
-	Digest     string         `json:"digest"`     // event log + schedule
-	SchedFP    string         `json:"sched_fp"`   // schedule fingerprint
+	Digest     string         `json:"digest"`   // event log + schedule
+	SchedFP    string         `json:"sched_fp"` // schedule fingerprint
 	NonTrivial bool           `json:"nontrivial"`
 	Stats      map[string]int `json:"stats"`
 	Yields     map[string]int `json:"yields"`
